@@ -171,7 +171,7 @@ Lemma expand_mounts_fstype c m l xs : expand_config_mounts c m l = Some xs -> mo
 Proof.
   unfold expand_config_mounts. intros H Hl x Hx.
   destruct (map_opt_in _ _ _ H _ Hx) as (nm & Hnm & E).
-  destruct (adjust_prefixed _ _); [|discriminate]. injection E as <-. cbn [x_fstype]. now apply Hl.
+  destruct (adjust_prefixed _ _); [|discriminate]. injection E as <-. cbn [x_fstype]. now apply (mounts_ok_nospace l).
 Qed.
 
 Lemma mount_one_hs e c sk ld name : LDI sk ld -> SKF sk -> sk_has sk name ->
